@@ -26,7 +26,12 @@ PROP = {'rule': 'rapid-generated cases, one unit per package. '
          'default quota, bound ones through the fail-over branch) and the live one both get the quota add and the migration tick '
          'and must agree with each other and the model. '
          'reservation additionally marks Reservations terminating (deletionTimestamp + finalizer, still Available, still owning their '
-         'pods). quotaplugin drives the real ElasticQuota Plugin (OnQuotaAdd/ReplaceQuotas, OnPodAdd/Update/Delete, '
+         'pods), puts the restricted-options annotation (a subset of cpu/memory/gpu) on reservations of any allocate policy (it '
+         'counts only for Restricted), re-uses the name of a deleted Reservation for a new one (new uid), and lets pods carry a '
+         'stale reservation-allocated annotation naming a deleted Reservation (failed earlier binding cycle whose clean-up patch was '
+         'lost, or a copied pod). device additionally drops devices from the Device object and reports them again (at most two '
+         'out at a time); every return is checked as a restart during the outage (rebuild from the reduced Device object and the '
+         'persisted pods), then the Device update on both schedulers. quotaplugin drives the real ElasticQuota Plugin (OnQuotaAdd/ReplaceQuotas, OnPodAdd/Update/Delete, '
          'Reserve/Unreserve, the real migrateDefaultQuotaGroupsPod) with the MultiQuotaTree gate on: quotas of the default tree and '
          'of 1-2 named trees (root quota with 0-2 children), late quota creation checked as a restart right before it, and, in a '
          'third of the crash points, a drawn subset of the quota objects delivered after the pod events (parking + migration); '
@@ -42,8 +47,11 @@ PROP = {'rule': 'rapid-generated cases, one unit per package. '
                  "handlers' IsPodTerminated branches are therefore not exercised",
                  'crash points are between scheduling cycles: a pod that is reserved but not yet bound is not in flight when the '
                  'scheduler restarts (its assumption is by design not persisted)',
-                 'the fresh scheduler is given the same node inventory as the live one (topology report, Device object, quota '
-                 'objects); no CPU amplification ratio; one node for numa/device',
+                 'the fresh scheduler is given the node inventory the live one currently has (topology report, the current Device '
+                 'object incl. devices that are temporarily not reported, quota objects); no CPU amplification ratio; one node for '
+                 'numa/device',
+                 'a stale reservation-allocated annotation never names the uid of a Reservation that still exists (then both '
+                 'schedulers would legitimately adopt the pod once they see it bound)',
                  'per-CPU exclusive marks are compared only with the default sharing limit 1 (with 2 the live mark is '
                  'last-writer-wins); the lazily refreshed matchableOnNode/allocatedOnNode indexes of the reservation cache and the '
                  'unread Node field of NodeAllocation.allocatedResources entries are not compared',
@@ -73,7 +81,7 @@ PROP = {'rule': 'rapid-generated cases, one unit per package. '
            {'name': 'reservation',
             'pkg': 'pkg/scheduler/plugins/reservation',
             'files': ['C19/c19_reservation_test.go'],
-            'tests': [{'run': 'TestVerifC19ReservationReplay', 'quick': 800, 'thorough': 2000, 'steps': 25}]},
+            'tests': [{'run': 'TestVerifC19ReservationReplay', 'quick': 800, 'thorough': 2000, 'steps': 25, 'shrinktime': '20s'}]},
            {'name': 'quota',
             'pkg': 'pkg/scheduler/plugins/elasticquota/core',
             'files': ['C19/c19_quota_test.go'],
